@@ -6,6 +6,8 @@ CONSTANTS
   BUG_ARRATTR = FALSE
   BUG_ADDARR = FALSE
   BUG_SLICE = FALSE
+  BUG_CPNCOLS = FALSE
+  BUG_OVERLIST = FALSE
   AllowAlias = FALSE
   EmitMode = 0
 INVARIANT NoError
